@@ -164,6 +164,10 @@ def strip_overflow(t):
 def show(t, depth=0):
     if not isinstance(t, tuple):
         return str(t)
+    if not t:
+        return "()"
+    if isinstance(t[0], tuple):
+        return "(%s)" % ", ".join(show(a, depth + 1) for a in t)
     if depth > 6:
         return "…"
     h = t[0]
